@@ -8,7 +8,11 @@ THEOREMS = ["C02_csum_set_then_verify", "C02_ip_calc_verifies", "C02_ipv4_ok_int
             "C02_tcp_client_close", "C02_tcp_server_close", "C02_tcp_client_message", "C02_tcp_server_message",
             "C02_tcp_data_segment", "C02_tcp_ack_reset", "C02_udp_addressed_push", "C02_udp_flow_dgram",
             "C02_udp_options_keep", "C02_udp_packet", "C02_vxlan", "C02_gre", "C02_erspan1", "C02_erspan2",
-            "C02_icmp", "C02_fragment", "C02_frag_datagram", "C02_datagram_fn"]
+            "C02_icmp", "C02_fragment", "C02_frag_datagram", "C02_datagram_fn",
+            # every packet-returning library key, every nesting depth, histories (Props/C02b.v)
+            "C02_clause_defs", "C02_want_defs", "C02_pkt_keys", "C02_lib_all_keys", "C02_fits_defs", "C02_plan_defs", "C02_tcp_plans", "C02_tcp_methods", "C02_udp_flow_methods", "C02_udp_flow_plans", "C02_udp_unicast", "C02_udp_broadcast", "C02_datagram", "C02_dns_host", "C02_fn_plans", "C02_icmp_methods", "C02_icmp_plans", "C02_frag_methods", "C02_frag_plans", "C02_frag_word_plain", "C02_vxlan_methods", "C02_gre_methods", "C02_erspan1_methods", "C02_erspan2_methods", "C02_created_wf", "C02_layer_outer", "C02_nesting_headers", "C02_nesting_defs", "C02_history_defs", "C02_tcp_history", "C02_udp_history", "C02_icmp_history", "C02_frag_history", "C02_vxlan_history", "C02_gre_history", "C02_erspan1_history", "C02_erspan2_history"]
+PROPS = ["C02", "C02b"]
+VO = ["theories/Props/C02.vo", "theories/Props/C02b.vo"]
 RULE = ("random programs over every builder that emits an IPv4 header (TCP flow operations, UDP flow/unicast/"
         "broadcast with frag_off/srcip/csum options, ICMP echo, ipv4::datagram with id/ttl/proto/flag/frag_off "
         "options, fragments, dns::host, VXLAN/GRE/ERSPAN outer headers nested up to depth 3), payload lengths 0, 1, "
